@@ -1,8 +1,33 @@
-HOOK_COMMITS = []
+HOOK_COMMITS = ["74cfa34e"]
 
 NOT_APPLICABLE = {}
 
 META = {
+ "C02": dict(
+  text="Differential + model-based random testing: for every (policy, value type) kind the host interface admits, generated block/operation lists (arbitrary ordinals, delete_prefix interleaved, shared-prefix keys) are executed through the real host calls sequentially on one FullKV and per segment on PartialKVs that are saved, reloaded and merged in order; both results are compared typed with each other and with an independent reference model.",
+  design_ref="DESIGN.md section 3, C02",
+  note="Numeric arguments are chosen so that arithmetic is exact and order-independent (no float rounding); comparison is typed (numbers by value, set:/sum: tag stripped) because sequential and merge paths format floats differently. Files go through an uncompressed local dstore.",
+  technique="rapid random generation, differential (sequential vs squashed) + reference model"),
+ "C03": dict(
+  text="Stateful random testing of the store under block/undo/redo/final histories (ApplyDeltasReverse with the block's own deltas, blocks re-executed after being undone), content and size compared with a model folded over the current chain after every step.",
+  design_ref="DESIGN.md section 3, C03",
+  note="Store level only so far (the end-to-end fork-tree part through the real forkable is not built yet in this commit).",
+  technique="rapid stateful (history machine) against a reference model"),
+ "C08": dict(
+  text="Model-based random testing of get_first/get_last/get_at/has_* (direct and through wasm.Call.Do*) on every key x every ordinal around each operation, and of the block's deltas folded over the pre-block content, for every kind.",
+  design_ref="DESIGN.md section 3, C08",
+  note="Reads are only required on full stores (the only stores handed to readers).",
+  technique="rapid random generation against a reference model applied in stable ordinal order"),
+ "C09": dict(
+  text="Round-trip/differential random testing: the operation log read after Flush is replayed with Reset+ApplyOps on a twin store in the same pre-state (rebuilt or loaded from the saved snapshot); deltas (proto-equal), content (bytewise), size, DeletedPrefixes (as a set) and the squash of the replayed partial are compared with the original execution.",
+  design_ref="DESIGN.md section 3, C09",
+  note="The end-to-end use of the cached branch (RunModule) is exercised by the cache-subset checks, not here.",
+  technique="rapid random generation, differential original-vs-replay"),
+ "C11": dict(
+  text="Stateful random testing: histories of blocks, undos, redos, finals, merges of saved+reloaded partials and save/load cycles with the total size limit lowered through a verif hook; after every step SizeBytes()==sum(len key+len value); Flush rejects as too big iff the content exceeds the limit right after some delta.",
+  design_ref="DESIGN.md section 3, C11",
+  note="The limit is only enforced by ApplyDelta (set/create paths), so the rejection oracle is stated for Flush; Merge itself is only required to keep the accounting exact.",
+  technique="rapid stateful (history machine) with size invariant and rejection oracle"),
  "C13": dict(
   text="Bounded-exhaustive enumeration of the quantifier's whole grid (segment size 1..16 x initial 0..64 x end..96, every index and block; Split start 0..40 x len 1..60 x chunk 1..16; all lists of <=4 ranges over 0..12) plus rapid-generated large values, judged by a validity predicate (non-empty, contiguous, disjoint, aligned, union exact, index lookups, out-of-range nil; Split/Merged preserve the covered block set).",
   design_ref="DESIGN.md section 3, C13",
